@@ -956,6 +956,42 @@ func (m *M) exec(p *path, fr *Frame, instr ssa.Instruction, work *[]*path) bool 
 		m.set(p, fr, x, m.closSet(m.mkClosure(key, x.Fn.(*ssa.Function), bind)))
 	case *ssa.MakeInterface:
 		m.set(p, fr, x, &VIface{Alts: []IAlt{{c.T, x.X.Type(), m.get(p, fr, x.X)}}})
+	case *ssa.TypeAssert:
+		iv := m.get(p, fr, x.X).(*VIface)
+		okT := c.F
+		var res Value
+		_, toIface := x.AssertedType.Underlying().(*types.Interface)
+		for _, al := range iv.Alts {
+			hit := false
+			if al.Typ != nil {
+				if toIface {
+					hit = types.Implements(al.Typ, x.AssertedType.Underlying().(*types.Interface))
+				} else {
+					hit = types.Identical(al.Typ, x.AssertedType)
+				}
+			}
+			if !hit {
+				continue
+			}
+			okT = c.Or(okT, al.G)
+			var v Value
+			if toIface {
+				v = &VIface{Alts: []IAlt{{c.T, al.Typ, al.Val}}}
+			} else {
+				v = al.Val
+			}
+			res = m.merge(al.G, v, res)
+		}
+		if res == nil {
+			res = m.zero(x.AssertedType)
+		}
+		if x.CommaOk {
+			m.set(p, fr, x, VTuple{res, VBool{okT}})
+		} else {
+			m.violate(p, "panic", "type-assertion", x, c.Not(okT))
+			p.g = c.And(p.g, okT)
+			m.set(p, fr, x, res)
+		}
 	case *ssa.ChangeType:
 		m.set(p, fr, x, m.get(p, fr, x.X))
 	case *ssa.ChangeInterface:
